@@ -1,6 +1,7 @@
 from propsdef import KERNEL, CORR, HARNESS
 
 PROP = {
+    "needs_binary": True,
     "obligations": [
         "Xt.Props.C18.msgpack_slice_eq_reader",
         "Xt.Props.C18.depth_verdict_slice_eq_reader",
